@@ -506,6 +506,10 @@ class Renderer:
             raise Reject('special variable')
         return Tok('#FOREACH' + self.delimit_multi(vals, rc) + self.loop_strings(n, rc))
 
+    def r_foreachspecial(self, n, rc):
+        d = self.rng.choice(['(', '(', '['])
+        return Tok('#FOREACH' + d + n.spec + {'(': ')', '[': ']'}[d] + self.loop_strings(n, rc))
+
     def r_foreachpoke(self, n, rc):
         s = 'POKE' + n.name
         if n.index is not None:
@@ -1243,8 +1247,43 @@ class ChunkGen:
                 return body
         return N('var', id=loop['id'])
 
+    def g_foreachspecial(self, depth):
+        """#FOREACH over a special variable that names entries of the file: ENTRY[types], REFaddr, EREFaddr. The expected
+        values come from what the generator knows about the file it is writing."""
+        rng = self.rng
+        fm = self.ro['filemap']
+        lid = self.new_loop_id()
+        k = rng.random()
+        if k < 0.45 or not fm['ref']:
+            types = rng.choice(['', 'c', 'b', 't', 'bc', 'tb', 'cbt', 'g', 'w'])
+            spec = 'ENTRY' + types
+            expected = [str(a) for a, ctl in fm['entries'] if not types or ctl in types]
+            self.features.add('FOREACH-ENTRY')
+        elif k < 0.75:
+            a = rng.choice(sorted(fm['ref']) + [e for e, ctl in fm['entries'][:2]])
+            spec = 'REF' + (str(a) if rng.random() < 0.7 else '$%04X' % a)
+            expected = [str(x) for x in fm['ref'].get(a, [])]
+            self.features.add('FOREACH-REF')
+        else:
+            a = rng.choice(sorted(fm['eref']) + fm['instructions'][:3])
+            spec = 'EREF' + (str(a) if rng.random() < 0.7 else '$%04x' % a)
+            expected = [str(x) for x in fm['eref'].get(a, [])]
+            self.features.add('FOREACH-EREF')
+        loop = {'id': lid, 'numeric': True, 'nn': True, 'max': 65535}
+        self.loops.append(loop)
+        body = self.gen_body(depth - 1, loop)
+        self.loops.pop()
+        sep = fsep = None
+        if rng.random() < 0.8:
+            sep = self.gen_sep(depth - 1)
+            if rng.random() < 0.4:
+                fsep = self.gen_sep(depth - 1, final=True)
+        return N('foreachspecial', spec=spec, expected=expected, id=lid, body=body, sep=sep, fsep=fsep)
+
     def g_foreach(self, depth):
         rng = self.rng
+        if self.ro.get('filemap') and not self.hazard and rng.random() < 0.25:
+            return self.g_foreachspecial(depth)
         self.features.add('FOREACH')
         lid = self.new_loop_id()
         numeric = rng.random() < 0.5
@@ -1962,6 +2001,7 @@ def make_file(rng, nchunks, hazard=None, nentries=None, forced_opts=None):
     if nentries is None:
         nentries = max(1, (nchunks * 3 + 13) // 14)
     entries = []
+    refs = []
     addr = CODE0
     code_addrs = []
     for e in range(nentries):
@@ -1982,7 +2022,28 @@ def make_file(rng, nchunks, hazard=None, nentries=None, forced_opts=None):
             mem[addr:addr + len(enc)] = bytes(enc)
             code_addrs.append(addr)
             addr += len(enc)
+        if ctl == 'c' and rng.random() < 0.6:
+            # a jump or call to an instruction of an earlier code entry (its first instruction or an entry point inside it)
+            targets = [(x[0], pe) for pe in entries if pe['ctl'] == 'c' for x in pe['ins']]
+            for _ in range(rng.randint(1, 2)):
+                if targets:
+                    t, pe = rng.choice(targets)
+                    opn, code = rng.choice([('CALL', 0xCD), ('JP', 0xC3), ('CALL NZ,', 0xC4), ('JP Z,', 0xCA)])
+                    op = '%s%s%d' % (opn, '' if opn.endswith(',') else ' ', t)
+                    enc = [code, t & 0xFF, t >> 8]
+                    ins.append((addr, op, enc))
+                    mem[addr:addr + 3] = bytes(enc)
+                    code_addrs.append(addr)
+                    addr += 3
+                    refs.append((ins[0][0], t, pe['ins'][0][0]))
         entries.append({'ctl': ctl, 'ins': ins})
+    filemap = {'entries': [(e['ins'][0][0], e['ctl']) for e in entries] + [(RO, 'b'), (TEXT, 't'), (PRIV, 'b')],
+               'instructions': [x[0] for e in entries for x in e['ins']], 'ref': {}, 'eref': {}}
+    for src, t, te in refs:
+        filemap['eref'].setdefault(t, set()).add(src)
+        filemap['ref'].setdefault(te, set()).add(src)
+    filemap['ref'] = {k: sorted(v) for k, v in filemap['ref'].items()}
+    filemap['eref'] = {k: sorted(v) for k, v in filemap['eref'].items()}
     ro_len = 64
     for i in range(ro_len):
         mem[RO + i] = rng.choice([0, 1, 127, 128, 255, rng.randint(0, 255), rng.randint(0, 255)])
@@ -1991,7 +2052,7 @@ def make_file(rng, nchunks, hazard=None, nentries=None, forced_opts=None):
         for i in range(16):
             mem[PRIV + 16 * c + i] = rng.randint(0, 255)
     ro = {'rodata': (RO, ro_len), 'strings': strings, 'code_addrs': code_addrs, 'cmdvar_names': sorted(opts['cmdvars']),
-          'cfg_mode': rng.choice(['default', 'custom'])}
+          'cfg_mode': rng.choice(['default', 'custom']), 'filemap': filemap}
     base_state = State(mem)
     # --- globals defined by @expand (read-only for the chunks): #LET and #DEF that precede every comment field
     expands = []
